@@ -17,7 +17,13 @@ Outcomes (JSON on stdout):
 spec format: {"items": [{"name": "delta", "file": "stable_baselines3/common/buffers.py",
                           "class": "RolloutBuffer", "func": "compute_returns_and_advantage",
                           "target": "delta", "occurrence": 0, "leaves": ["rewards_step", …]}]}
-`target` is the assigned name (or "return" for the returned expression, or "attr:NAME" for `self.NAME = …`).
+`target` is the assigned name (or "return" for the returned expression, "attr:NAME" for `self.NAME = …`,
+"sub:NAME" for `NAME[…] = …`, or "if" for the test of the `occurrence`-th `if` statement of the function).
+Optional per item: "type" (concrete Lean type of all leaves, e.g. "Nat"/"Int"; default: a type parameter α with
+"classes"), "result" (Lean result type, e.g. "Bool" for a condition), "inline" {leaf: lean term}, "leaves" (the
+expected leaf names; a different set means the code was restructured -> status unavailable).
+Supported expression forms: + - * / // % **, unary -, numeric constants, names/attributes/subscripts (leaves),
+max/min/clip/float/int, comparisons (== != < <= > >=), and/or/not, conditional expressions.
 """
 from __future__ import annotations
 
@@ -96,8 +102,24 @@ class Tr(ast.NodeVisitor):
             if fn in ("np.square",) and len(args) == 1:
                 return f"({args[0]} * {args[0]})"
             raise Unsupported(f"call {fn}")
+        if isinstance(n, (ast.ListComp, ast.GeneratorExp)):
+            # `[f(i) for i in …]` -> the element expression f(i) with the loop variable as a leaf
+            return self.tr(n.elt)
         if isinstance(n, ast.IfExp):
-            raise Unsupported("conditional expression")
+            return f"(if {self.tr(n.test)} then {self.tr(n.body)} else {self.tr(n.orelse)})"
+        if isinstance(n, ast.Compare) and len(n.ops) == 1:
+            a, b = self.tr(n.left), self.tr(n.comparators[0])
+            op = {ast.Eq: "==", ast.NotEq: "!=", ast.Lt: "<", ast.LtE: "≤", ast.Gt: ">", ast.GtE: "≥"}.get(type(n.ops[0]))
+            if op is None:
+                raise Unsupported(ast.dump(n.ops[0]))
+            if op in ("==", "!="):
+                return f"({a} {op} {b})"
+            return f"(decide ({a} {op} {b}))"
+        if isinstance(n, ast.BoolOp):
+            op = " && " if isinstance(n.op, ast.And) else " || "
+            return "(" + op.join(self.tr(v) for v in n.values) + ")"
+        if isinstance(n, ast.UnaryOp) and isinstance(n.op, ast.Not):
+            return f"(!{self.tr(n.operand)})"
         raise Unsupported(type(n).__name__)
 
 
@@ -116,6 +138,9 @@ def find_func(tree, cls, func):
 def find_expr(fn, target, occurrence):
     hits = []
     for n in ast.walk(fn):
+        if target == "if" and isinstance(n, ast.If):
+            hits.append(n.test)
+            continue
         if target == "return" and isinstance(n, ast.Return) and n.value is not None:
             hits.append(n.value)
         elif isinstance(n, (ast.Assign, ast.AugAssign)):
@@ -145,9 +170,16 @@ def extract_item(item):
     if "leaves" in item and sorted(item["leaves"]) != leaves:
         raise Unsupported(f"{item['name']}: leaves {leaves} differ from expected {sorted(item['leaves'])}")
     params = " ".join(leaves)
-    classes = item.get("classes", "[Add α] [Sub α] [Mul α] [Div α] [Neg α] [OfNat α 0] [OfNat α 1] [OfNat α 2]")
-    text = f"def {item['name']} {{α : Type}} {classes} ({params} : α) : α :=\n  {term}" if leaves else \
-           f"def {item['name']} {{α : Type}} {classes} : α :=\n  {term}"
+    result = item.get("result")
+    if item.get("type"):
+        # concrete scalar type (e.g. Nat, Int): no type parameter, no classes
+        ty = item["type"]
+        binder = f"({params} : {ty}) " if leaves else ""
+        text = f"def {item['name']} {binder}: {result or ty} :=\n  {term}"
+    else:
+        classes = item.get("classes", "[Add α] [Sub α] [Mul α] [Div α] [Neg α] [OfNat α 0] [OfNat α 1] [OfNat α 2]")
+        binder = f"({params} : α) " if leaves else ""
+        text = f"def {item['name']} {{α : Type}} {classes} {binder}: {result or 'α'} :=\n  {term}"
     return text, {"name": item["name"], "expr": ast.get_source_segment(src, expr), "lean": term, "leaves": leaves,
                   "where": f"{item['file']}:{expr.lineno}"}
 
